@@ -35,6 +35,14 @@ scale        : ConcatLaw / AcceptLaw of HtmMatch.tla (checked by TLC on the smal
 dense sets   : scope "d" of HtmMatchMC (480 matcher points all round the circle) and seeded lives with 300-700 matcher
                points (the whole 414-point rational sphere), searched with radii of 1-12 degrees at depths 5..11:
                tree and cover both hold hundreds of leaf triangles, full and partial; judged by the exact oracle.
+world        : HtmMatchWorld.tla - one process, several Matcher objects of DIFFERENT depths alive at once, the one-shot
+               HTM(depth).match, and the caller's own steps (Scribble over the arrays a call returned, Drop an object),
+               interleaved.  TLC: the faithful mechanism (every Matcher owns its index) satisfies WorldIndependent (every
+               call's outcome = its fresh-world outcome), a per-process index keyed by depth alone and a memo handing out its
+               own storage violate it.  Exported sessions (exhaustive over the tiny catalogue, simulated over a wider one)
+               are executed each in ONE process with the depth labels bound to different concrete depths; HtmMatchTrace
+               judges every call against the point set of its own object.  A rejected session is stored whole and
+               --replay re-executes it in one fresh process.
 off lattice  : for seeded generic point sets (uniform, clustered caps, poles, seam, duplicates) only
                relations between two implementation outputs are compared (depth d = depth d', Matcher =
                one-shot, file = memory, limited = prefix of unlimited - also with radii taken from
@@ -83,7 +91,11 @@ TIERS = {
               _job("sim", "s", 6, 4, 3, True, "each", 2, num=250, ow=1),
               _job("scale", "s", 6, 4, 1, True, "each", 1, num=4, scale=(20000, 65537))],
         depths=[1, 4, 8, 13], dense_depths=[6, 8, 10], seeded=900, seeded_n=6, seeded_variants=2, off=150, off_n=40,
-        trixel_budget=6e4, dense_budget=4e5, scale_budget=2e7),
+        trixel_budget=6e4, dense_budget=4e5, scale_budget=2e7,
+        world=dict(mech=[("gc", dict(Scope="h", MaxObjs=2, MaxN2=1, MaxN1=1, MaxEv=4, Depths={1, 2})),
+                         ("rs", dict(Scope="h", MaxObjs=2, MaxN2=1, MaxN1=1, MaxEv=3, Depths={1, 2}))],
+                   jobs=[dict(name="world3", consts=dict(Scope="h", MaxObjs=2, MaxN2=1, MaxN1=1, MaxEv=3, Depths={1, 2}), num=None, variants=1, thin=6),
+                         dict(name="worldsim", consts=dict(Scope="w", MaxObjs=2, MaxN2=2, MaxN1=2, MaxEv=7, Depths={1, 2}), num=150, variants=2)])),
     "thorough": dict(
         mech=[_mech("t", 2, 1, 1, False), _mech("q", 2, 2, 1, True), _mech("h", 2, 1, 2, True, ow=1)],
         jobs=[_job("sweep", "t", 2, 1, 1, False, "sweep", 2), _job("sweep_perpoint", "q", 2, 2, 1, True, "sweep", 2),
@@ -94,7 +106,13 @@ TIERS = {
               _job("scale", "s", 6, 4, 1, True, "each", 1, num=12,
                    scale=(19999, 20000, 20001, 32768, 65535, 65536, 65537, 100003, 196608, 262145))],
         depths=ALL_DEPTHS, dense_depths=[5, 6, 7, 8, 9, 10, 11], seeded=20000, seeded_n=24, seeded_variants=2, off=4000,
-        off_n=150, trixel_budget=2e5, dense_budget=2e6, scale_budget=1e8),
+        off_n=150, trixel_budget=2e5, dense_budget=2e6, scale_budget=1e8,
+        world=dict(mech=[("gc", dict(Scope="h", MaxObjs=2, MaxN2=1, MaxN1=1, MaxEv=5, Depths={1, 2})),
+                         ("rs", dict(Scope="h", MaxObjs=2, MaxN2=1, MaxN1=1, MaxEv=4, Depths={1, 2})),
+                         ("gc", dict(Scope="h", MaxObjs=2, MaxN2=2, MaxN1=1, MaxEv=4, Depths={1, 2})),
+                         ("rs", dict(Scope="h", MaxObjs=2, MaxN2=2, MaxN1=1, MaxEv=4, Depths={1, 2}))],
+                   jobs=[dict(name="world4", consts=dict(Scope="h", MaxObjs=2, MaxN2=1, MaxN1=1, MaxEv=4, Depths={1, 2}), num=None, variants=1),
+                         dict(name="worldsim", consts=dict(Scope="w", MaxObjs=3, MaxN2=2, MaxN1=2, MaxEv=9, Depths={1, 2, 3}), num=3000, variants=2)])),
 }
 
 # octahedral symmetries of the rational sphere (exact: permute / negate coordinates)
@@ -965,6 +983,331 @@ def off_relations(case):
 
 
 # ---------------------------------------------------------------------------------
+# the world machine (HtmMatchWorld.tla): sessions over several matcher objects of different depths, the one-shot
+# entry point and the caller's own steps (scribbling over results, dropping objects), each executed in ONE process
+def _world_consts(scope, nobj, n2, n1, nev):
+    return dict(Scope=scope, MaxObjs=nobj, MaxN2=n2, MaxN1=n1, MaxEv=nev, Depths={1, 2})
+
+
+def is_wcall(e):
+    return e["op"] in ("call", "oneshot")
+
+
+def session_trim(sess):
+    """a session ends with its last call (what the caller does afterwards is observed by nobody)"""
+    ev = list(sess["events"])
+    while ev and not is_wcall(ev[-1]):
+        ev.pop()
+    return {"kind": sess["kind"], "events": [{k: v for k, v in e.items() if k != "out"} for e in ev]}
+
+
+def session_life(sess):
+    """the session seen as one pseudo life: only for the quantifier check (allowed_eps) and the cost control"""
+    p2 = [p for e in sess["events"] if e["op"] == "new" for p in e["p2"]]
+    calls = [{"op": "call", "p1": e["p1"], "rad": e["rad"], "k": e["k"]} for e in sess["events"] if is_wcall(e)]
+    return {"kind": sess["kind"], "p2": p2, "calls": calls}
+
+
+def session_interleaved(sess, depthmap=None):
+    """does some object answer a call after a matcher of ANOTHER depth was built (New or one-shot) since its own
+    construction?"""
+    dm = depthmap or {}
+    own, last = {}, None
+    for e in sess["events"]:
+        d = dm.get(str(e.get("depth")), e.get("depth"))
+        if e["op"] == "new":
+            own[e["obj"]] = d
+            last = d
+        elif e["op"] == "oneshot":
+            last = d
+        elif e["op"] == "call" and own[e["obj"]] != last:
+            return True
+    return False
+
+
+def plan_session_variants(sess, sid, seed, T, nvariants):
+    rng = random.Random((seed * 1000003 + sid) * 6007 + 29)
+    life = session_life(sess)
+    eps_names = allowed_eps(life)
+    if not eps_names:
+        raise MachineryError("session outside the quantifier under every eps: %s" % json.dumps(sess)[:300])
+    labels = sorted({str(e["depth"]) for e in sess["events"] if "depth" in e})
+    out = []
+    for v in range(nvariants):
+        en = eps_names[(sid + v * 3 + seed) % len(eps_names)]
+        eps = hl.EPS[en] if en else None
+        depths = [d for d in ALL_DEPTHS if life_cost(life, eps, d) <= T["trixel_budget"]]
+        if len(depths) < len(labels):
+            depths = ALL_DEPTHS[:max(2, len(labels))]
+        # different labels -> different depths (neighbours and far apart alike); the same label -> the same depth
+        pick = rng.sample(depths, len(labels))
+        var = {"eps": en, "depthmap": dict(zip(labels, pick)), "layout": LAYOUTS[(sid + v + seed) % len(LAYOUTS)],
+               "pfile": rng.choice([0, 0, 3]) / 10.0, "vseed": rng.randrange(1 << 30)}
+        if sess["kind"] == "gc":
+            var["circle"] = (sid + 3 * v + seed) % len(hl.CIRCLES)
+        else:
+            var["sym"] = (sid + 3 * v + seed) % len(SYMS)
+        out.append(var)
+    return out
+
+
+def _err_obs(err):
+    return {"err": err, "via": "mem", "m1": [], "m2": [], "dd": [], "count": -1, "rerr": "none", "mem1": [], "mem2": [],
+            "hasall": False, "all1": [], "all2": []}
+
+
+def run_session(sess, var):
+    """execute one session, in this process, event by event -> ([(event number, observation)], frame_ok, notes)"""
+    import gc
+    import esutil.htm as H
+    kind = sess["kind"]
+    eps = hl.EPS[var["eps"]] if kind == "gc" else None
+    rng = random.Random(var["vseed"])
+    lay = var["layout"]
+    objs, obs, results, frame_ok = {}, [], {}, True
+    notes = {"scribbled": 0, "dropped": 0}
+    try:
+        os.unlink(_tmpfile("pairs"))
+    except OSError:
+        pass
+
+    def arrays(pts, role):
+        ra, dec = concretise(kind, pts, var, role)
+        return (make_layout(ra, lay)[0], make_layout(dec, lay)[0]), len(ra)
+    for n, e in enumerate(sess["events"], 1):
+        op = e["op"]
+        if op == "new":
+            a2, n2 = arrays(e["p2"], 2)
+            depth = var["depthmap"][str(e["depth"])]
+            w = {"a2": a2, "n2": n2, "depth": depth, "err": "none", "obj": None, "snaps": [hl.snapshot(a2[0]), hl.snapshot(a2[1])]}
+            try:
+                w["obj"] = H.Matcher(depth, a2[0], a2[1])
+            except Exception as ex:  # noqa
+                w["err"] = type(ex).__name__
+            objs[e["obj"]] = w
+        elif op == "drop":
+            objs.pop(e["obj"], None)
+            gc.collect()
+            notes["dropped"] += 1
+        elif op == "scribble":
+            ent = results.pop(e["at"], None)          # the arrays that call returned are the caller's: overwrite them
+            if ent is not None:
+                for a in ent[0]:
+                    try:
+                        a[...] = -7
+                    except Exception:  # noqa
+                        pass
+                notes["scribbled"] += 1
+        else:
+            a1, n1 = arrays(e["p1"], 1)
+            rr = concrete_radius(kind, e["rad"], var)
+            rad = (rr[0] if rng.random() < 0.7 else make_layout(rr, lay)[0]) if len(rr) == 1 else make_layout(rr, lay)[0]
+            use_file = rng.random() < var["pfile"]
+            keep = []
+            s1 = [hl.snapshot(a1[0]), hl.snapshot(a1[1]), hl.snapshot(rad)]
+            if op == "call":
+                w = objs[e["obj"]]
+                a2, n2, snaps = w["a2"], w["n2"], w["snaps"]
+                o = _err_obs(w["err"]) if w["err"] != "none" else \
+                    observe_call("matcher", w["depth"], w["obj"], a1, a2, rad, int(e["k"]), use_file, keep)
+            else:
+                a2, n2 = arrays(e["p2"], 2)
+                snaps = [hl.snapshot(a2[0]), hl.snapshot(a2[1])]
+                o = observe_call("oneshot", var["depthmap"][str(e["depth"])], None, a1, a2, rad, int(e["k"]), use_file, keep)
+            if s1 != [hl.snapshot(a1[0]), hl.snapshot(a1[1]), hl.snapshot(rad)] or \
+                    snaps != [hl.snapshot(a2[0]), hl.snapshot(a2[1])]:
+                frame_ok = False
+            if keep:
+                results[n] = keep[0]
+            cap = n1 * n2 + 1
+            for key in ("m1", "m2", "dd", "mem1", "mem2", "all1", "all2"):
+                del o[key][cap:]
+            o["d"], o["dev"] = [], []
+            for x in o.pop("dd"):
+                pj = hl.project(kind, x, eps)
+                o["d"].append({"on": bool(pj["on"]), "v": [int(pj["v"][0]), int(pj["v"][1])]})
+                o["dev"].append(None if pj["on"] else [x.hex() if x == x else "nan", pj.get("dev")])
+            obs.append((n, o))
+    stable = True                       # results not scribbled over must still read as they did when handed out
+    for res, then in results.values():
+        try:
+            now = _mem_result(res)
+        except Exception:  # noqa
+            now = None
+        if now is None or (now[0], now[1]) != (then[0], then[1]) or [x.hex() for x in now[2]] != [x.hex() for x in then[2]]:
+            stable = False
+    notes["results_stable"] = stable
+    return obs, frame_ok, notes
+
+
+def exec_session(arg):
+    sid, vi, sess, var = arg
+    obs, frame_ok, notes = run_session(sess, var)
+    calls = {}
+    for n, o in obs:
+        e = sess["events"][n - 1]
+        calls[n] = dict({"p1": e["p1"], "rad": e["rad"], "k": int(e["k"])}, **{k: o[k] for k in OBS_KEYS})
+    return {"sid": sid, "vi": vi, "var": var, "calls": calls, "frame_ok": frame_ok, "notes": notes,
+            "extra": {n: {"dev": o["dev"], "msg": o.get("msg")} for n, o in obs}}
+
+
+def session_records(sess, r):
+    """what HtmMatchTrace judges: one record per OBJECT of the session (its point set, then the calls made on it, in
+    order) and one per one-shot call - every call against the point set of its own object, nothing else.
+    -> [(record body, [event numbers of its calls])]"""
+    calls = {int(n): c for n, c in r["calls"].items()}
+    out, per = [], {}
+    for n, e in enumerate(sess["events"], 1):
+        if e["op"] == "new":
+            per[e["obj"]] = ({"kind": sess["kind"], "p2": e["p2"], "ident": True, "calls": []}, [])
+        elif e["op"] == "call":
+            per[e["obj"]][0]["calls"].append(calls[n])
+            per[e["obj"]][1].append(n)
+        elif e["op"] == "oneshot":
+            out.append(({"kind": sess["kind"], "p2": e["p2"], "ident": True, "calls": [calls[n]]}, [n]))
+    return out + [v for v in per.values() if v[1]]
+
+
+def describe_session(sess, r, n):
+    var = r["var"]
+    e = sess["events"][n - 1]
+    c = r["calls"][n]
+    hist = []
+    for t, x in enumerate(sess["events"][:n], 1):
+        if x["op"] == "new":
+            hist.append("%d:Matcher#%d(depth %d, %d pts)" % (t, x["obj"], var["depthmap"][str(x["depth"])], len(x["p2"])))
+        elif x["op"] == "call":
+            hist.append("%d:#%d.match" % (t, x["obj"]))
+        elif x["op"] == "oneshot":
+            hist.append("%d:HTM(%d).match" % (t, var["depthmap"][str(x["depth"])]))
+        elif x["op"] == "drop":
+            hist.append("%d:del #%d" % (t, x["obj"]))
+        else:
+            hist.append("%d:scribble over result of %d" % (t, x["at"]))
+    ex = r["extra"][n]
+    return ("event %d (%s) of the one-process session [%s] layout %s via %s maxmatch %d returned m1=%s m2=%s%s" %
+            (n, e["op"], " ".join(hist), var["layout"], c["via"], c["k"], c["m1"][:12], c["m2"][:12],
+             (" error %s %s" % (c["err"], ex["msg"])) if c["err"] != "none" else ""))
+
+
+def judge_sessions(ctx, sessions, results, what, cap=4):
+    """every call of every executed session judged by HtmMatchTrace against its own object; -> rejected executions"""
+    uniq, members = {}, {}
+    for r in results:
+        for body, evs in session_records(sessions[r["sid"]], r):
+            key = json.dumps(body, sort_keys=True)
+            if key not in uniq:
+                uniq[key] = dict(body, id=len(uniq) + 1)
+                members[len(uniq)] = []
+            members[uniq[key]["id"]].append((r, evs))
+    rejects = tracecheck.validate(ctx, "HtmMatchTrace.tla", list(uniq.values()), what=what)
+    emitted, bad = {}, set()
+    for rid in sorted(rejects):
+        for r, evs in members[rid]:
+            sess = sessions[r["sid"]]
+            bad.add((r["sid"], r["vi"]))
+            fails = sorted(tuple(x) for x in rejects[rid])
+            filebad = {n for n, clause in fails if clause.startswith("file_")}
+            for n, clause in fails:
+                if n in filebad and not clause.startswith("file_"):
+                    continue
+                en = evs[n - 1]
+                sig = signature(session_life(sess), r["calls"][en], r["var"], clause) + "|session"
+                if emitted.get(sig, 0) >= cap:
+                    continue
+                emitted[sig] = emitted.get(sig, 0) + 1
+                ctx.violation(sig, "clause %s of HtmMatch.tla, judged against the call's own object (WorldIndependent of "
+                              "HtmMatchWorld.tla): %s" % (clause, describe_session(sess, r, en)),
+                              {"kind": "session", "session": sess, "var": r["var"], "event": en, "clause": clause})
+    for r in results:
+        case = {"kind": "session", "session": sessions[r["sid"]], "var": r["var"], "event": 0}
+        if not r["frame_ok"]:
+            ctx.violation("match|argument_modified|session", "a coordinate / radius argument was modified by a call of a session",
+                          dict(case, clause="argument_modified"))
+        if not r["notes"]["results_stable"]:
+            ctx.violation("match|result_changed_by_later_call|session",
+                          "arrays returned by an earlier call of a session changed later in the session", dict(case, clause="result_changed"))
+    return len(bad)
+
+
+def _export_sessions(ctx, kind, job):
+    c = dict(job["consts"], Kind=kind, Mechanism="own", DoExport=True)
+    kw = {}
+    if job["num"]:
+        kw = dict(simulate="num=%d" % job["num"], extra=["-depth", "60", "-seed", str(ctx.seed + 23)])
+    r = ctx.tlc("HtmMatchWorld.tla", what="export %s sessions [%s]" % (job["name"], kind),
+                cfg_text=cfg(constants=c, next_="NextExport" if job["num"] else "NextExportOne", constraints=["Export"]),
+                workers=1, coverage=False, timeout=3000, **kw)
+    seen, out = set(), []
+    for sess in r.records.get("CASE", []):
+        sess = session_trim(sess)
+        key = json.dumps(sess, sort_keys=True)
+        if key not in seen and sess["events"]:
+            seen.add(key)
+            out.append(sess)
+    if not out:
+        raise MachineryError("no sessions exported by %s [%s]" % (job["name"], kind))
+    if job.get("thin"):
+        # covering design over the exhaustive set: every session in which an object answers after a matcher of another
+        # depth was built, every thin-th of the others
+        out = [s for t, s in enumerate(out) if session_interleaved(s) or t % job["thin"] == ctx.seed % job["thin"]]
+    return out
+
+
+def world_step(ctx, T, only):
+    """design level (TLC): the faithful mechanism satisfies WorldIndependent, the two deviating ones violate it;
+    conformance: exported sessions executed, each in one process, every call judged on its own object"""
+    W = T["world"]
+    stats = {"sessions": 0, "executions": 0, "calls": 0, "pairs": 0, "interleaved": 0, "scribbled": 0, "dropped": 0, "rejected": 0}
+    jobs = [(job, kind) for job in W["jobs"] for kind in ("gc", "rs")]
+    with ThreadPoolExecutor(4) as ex:
+        futs = [ex.submit(_export_sessions, ctx, kind, job) for job, kind in jobs]
+        exported = [f.result() for f in futs]
+    sessions, work = {}, []
+    for (job, kind), ls in zip(jobs, exported):
+        for sess in ls:
+            sid = len(sessions) + 1
+            sessions[sid] = sess
+            for vi, var in enumerate(plan_session_variants(sess, sid, ctx.seed, T, job["variants"])):
+                work.append((sid, vi, sess, var))
+    results = pmap(exec_session, work)
+    for r in results:
+        sess = sessions[r["sid"]]
+        ctx.count({"session": sess, "var": r["var"]})
+        stats["calls"] += len(r["calls"])
+        stats["pairs"] += sum(len(c["m1"]) for c in r["calls"].values())
+        stats["interleaved"] += session_interleaved(sess, r["var"]["depthmap"])
+        stats["scribbled"] += r["notes"]["scribbled"]
+        stats["dropped"] += r["notes"]["dropped"]
+    stats["sessions"], stats["executions"] = len(sessions), len(results)
+    ctx.evaluations += stats["calls"] - len(results)
+    stats["rejected"] = judge_sessions(ctx, sessions, results, "judge executed sessions, call by call on its own object (HtmMatchTrace)")
+    ctx.log("world: %(sessions)d sessions, %(executions)d executions, %(calls)d calls, %(interleaved)d with a matcher re-used "
+            "after another depth was built, %(rejected)d rejected" % stats)
+    if stats["interleaved"] < 50 or stats["scribbled"] < 10 or stats["dropped"] < 10 or stats["pairs"] < stats["executions"]:
+        raise MachineryError("world step vacuous: %s" % stats)
+    return stats
+
+
+def world_mech(ctx, T):
+    """-> list of thunks for the TLC pool"""
+    def faithful(kind, consts):
+        c = dict(consts, Kind=kind, Mechanism="own", DoExport=False)
+        return ctx.tlc("HtmMatchWorld.tla", what="world machine: every call = its fresh-world outcome [%s, %d events]" % (kind, consts["MaxEv"]),
+                       cfg_text=cfg(constants=c, invariants=["WorldIndependent"], properties=["WorldFrozen"]), workers=8,
+                       require=["Pick", "New", "Call", "OneShot", "Scribble", "Drop"], timeout=3000)
+
+    def deviating(mechname):
+        c = dict(_world_consts("h", 2, 1, 1, 4), Kind="gc", Mechanism=mechname, DoExport=False)
+        r = ctx.tlc("HtmMatchWorld.tla", what="self-test: mechanism %s violates WorldIndependent" % mechname,
+                    cfg_text=cfg(constants=c, invariants=["WorldIndependent"]), workers=1, allow_violation=True, coverage=False)
+        if "WorldIndependent" not in r.violated:
+            raise MachineryError("self-test failed: WorldIndependent not violated by mechanism %s" % mechname)
+    return [(deviating, ("shared_index_by_depth",)), (deviating, ("memo_handout",))] + \
+           [(faithful, (kind, consts)) for kind, consts in T["world"]["mech"]]
+
+
+# ---------------------------------------------------------------------------------
 def _export(ctx, kind, job):
     c = dict(job["consts"], Kind=kind, Deviation="none", DoExport=True, KMode=job["kmode"])
     kw = {}
@@ -1079,6 +1422,8 @@ def _run(ctx, T, only):
     if not only or "mech" in only:
         mech_futs = [mech_pool.submit(selftest, dev) for dev in ("lossy_cover", "truncate_unsorted", "fastpath_strict")]
         mech_futs += [mech_pool.submit(mech, kind, consts) for consts in T["mech"] for kind in ("gc", "rs")]
+    if not only or "world" in only:
+        mech_futs += [mech_pool.submit(fn, *args) for fn, args in world_mech(ctx, T)]
     try:
         _conformance(ctx, T, only)
         for f in mech_futs:
@@ -1102,6 +1447,9 @@ def _conformance(ctx, T, only):
     if not only or "seeded" in only:
         items += [("seeded", life, T["seeded_variants"]) for life in seeded_lives(ctx.seed, T["seeded"], T["seeded_n"])]
     process(ctx, T, st, items)
+    wstats = world_step(ctx, T, only) if (not only or "world" in only) else None
+    if only and st.executions == 0 and wstats:
+        return
     if st.executions == 0:
         raise MachineryError("nothing executed")
     cover = st.cover
@@ -1155,7 +1503,9 @@ def _conformance(ctx, T, only):
                 "buffers; lives with Overwrite events (caller overwrites the matcher's source arrays in place) exhaustive "
                 "over the tiny catalogue; dense matcher sets (>= 256 occupied triangles, covers of hundreds of triangles); "
                 "scale cases (first set tiled to 20000..262145 points, judged through the concatenation law from the "
-                "small call); a case is distinct by (abstract life, "
+                "small call); world sessions of HtmMatchWorld.tla (2-3 matcher objects of different depths + one-shot calls + "
+                "Scribble / Drop steps interleaved in one process: exhaustive to 3-4 events over the tiny catalogue, simulated "
+                "to 7-9 events over a wider one), every call judged on its own object; a case is distinct by (abstract life, "
                 "concretisation) and non-trivial always (>= 1 point in each set)" %
                 ([j["num"] for j in T["jobs"] if j["num"]][0], T["seeded"], T["seeded_n"], T["depths"]))
     ctx.exhaustive = True
@@ -1163,7 +1513,7 @@ def _conformance(ctx, T, only):
              executions=st.executions, match_calls=st.calls, pairs_returned=st.pairs,
              rejected_executions=st.rejected, coverage_of_concretisations=cover, scale_cases=st.scale_cases,
              scale_cases_with_multi_pair_groups=st.scale_multi, dense_executions=st.dense, offlattice_cases=noff, offlattice=offstats,
-             offlattice_broken=len(offbad), separation_tolerance_deg="1e-9")
+             offlattice_broken=len(offbad), separation_tolerance_deg="1e-9", world_sessions=wstats)
     ctx.trusted_base += ["float(Fraction) correctly rounded; one longdouble atan2/asin/acos per rational-sphere input (vh.htmlat)",
                          "projection of reported separations onto lattice values with Fraction / longdouble arithmetic (vh.htmlat)"]
     ctx.assumptions = [
@@ -1248,6 +1598,16 @@ def replay(ctx, case):
             print("replay observed:", {k: v for k, v in res.items() if k in ("ok", "relation", "depth", "error", "npairs")})
             if not res.get("ok"):
                 ctx.violation("match|%s|offlattice" % res["relation"], "relation %s broken on replay" % res["relation"], case)
+            return
+        if case.get("kind") == "session":
+            # the whole session again, in this (fresh) process
+            sess, var = case["session"], case["var"]
+            r = exec_session((1, 0, sess, var))
+            for n in sorted(r["calls"]):
+                c = r["calls"][n]
+                print("replay event %d (%s): k=%d via=%s err=%s m1=%s m2=%s" % (n, sess["events"][n - 1]["op"], c["k"], c["via"],
+                                                                            c["err"], c["m1"], c["m2"]))
+            judge_sessions(ctx, {1: sess}, [r], "replay session")
             return
         life, var = case["life"], case["var"]
         r = exec_variant((1, 0, life, var))
